@@ -697,10 +697,20 @@ fn tretry_t<T: V + Encode<()> + CborLen<()>>(val: &str) -> String {
 fn tdec_t<T: V + Decode<'static, ()>>(h: &str) -> String {
     let input = match unhex(h) { Some(b) => arena_put(b), None => return "bad-op".into() };
     let mut d = Decoder::new(input);
-    match d.decode::<T>() {
-        Ok(v) => { let mut s = String::new(); v.show(&mut s); format!("ok {} {}", s, d.position()) }
-        Err(e) => format!("err {} {}", dclass(&e), d.position())
-    }
+    let (res, brief) = match d.decode::<T>() {
+        Ok(v) => { let mut s = String::new(); v.show(&mut s); (format!("ok {} {}", s, d.position()), format!("ok {}", s)) }
+        Err(e) => (format!("err {} {}", dclass(&e), d.position()), format!("err {}", dclass(&e)))
+    };
+    // the one-shot entry points are the same decode on a fresh decoder: same value or same error class
+    let via = |r: Result<T, minicbor::decode::Error>| match r {
+        Ok(v) => { let mut s = String::new(); v.show(&mut s); format!("ok {}", s) }
+        Err(e) => format!("err {}", dclass(&e))
+    };
+    let a = via(minicbor::decode::<T>(input));
+    if a != brief { return format!("entry-mismatch minicbor::decode {} vs {}", a, res) }
+    let b = via(minicbor::decode_with::<(), T>(input, &mut ()));
+    if b != brief { return format!("entry-mismatch minicbor::decode_with {} vs {}", b, res) }
+    res
 }
 
 fn no_dec(_: &str) -> String { "bad-op".into() }
